@@ -263,7 +263,13 @@ def gen_float_case(rng, idx):
         else:
             sh = [round(rng.uniform(-6, 6), 3) for _ in range(3)]
         parts.append({"pos": pos, "shift": sh, "ang": ang, "tomo": rng.randint(1, ntomo)})
-    dims = {t: [rng.randint(100, 400), rng.randint(100, 400), rng.randint(50, 300)] for t in range(1, ntomo + 1)}
+    # tomogram numbers as they occur in practice: 1.., 0.. (0 is a number like any other), date-coded large consecutive
+    # ones, arbitrary unsorted ones
+    mode = rng.randrange(4)
+    ids = {0: [1, 2, 3], 1: [0, 1, 2], 2: [240115, 240116, 240117], 3: [17, 3, 5]}[mode]
+    for p_ in parts:
+        p_["tomo"] = ids[p_["tomo"] - 1]
+    dims = {ids[t - 1]: [rng.randint(100, 400), rng.randint(100, 400), rng.randint(50, 300)] for t in range(1, ntomo + 1)}
     steps = []
     for _ in range(rng.randint(1, 6)):
         o = rng.choice(["update", "scale", "shift", "shift", "rotate", "rotate", "flip"])
@@ -318,6 +324,7 @@ def run_float(ctx, cases):
         drows = [[int(t)] + list(d) for t, d in sorted(case["dims"].items())] + [[77, 50, 60, 70]]
         drows = drows[case["id"] % len(drows):] + drows[: case["id"] % len(drows)]       # any row order, an unused tomogram
         dims_table = pd.DataFrame(np.array(drows, dtype=float), columns=["tomo_id", "x", "y", "z"])      # one object for the whole history
+        single = list(sorted(case["dims"].items(), key=lambda kv: int(kv[0]))[0][1])
         for si, st in enumerate(case["steps"]):
             pre_c = np.asarray(motl.get_coordinates(), dtype=float).copy()
             pre_a = motl.df[["phi", "theta", "psi"]].to_numpy(dtype=float).copy()
@@ -334,7 +341,6 @@ def run_float(ctx, cases):
                 elif st["name"] == "rotate":
                     motl.apply_rotation(Rotation.from_matrix(geo.zxz_matrix(*st["ang"])))
                 else:
-                    single = list(case["dims"][1] if 1 in case["dims"] else case["dims"]["1"])
                     # file form: ONE path for the whole run, rewritten before every call with this history's numbers -
                     # a call must read the file it is given now (the thickness differs from history to history)
                     shared = os.path.join(ctx.workdir, "dimensions.txt")
@@ -371,7 +377,19 @@ def run_float(ctx, cases):
             post_c = np.asarray(motl.get_coordinates(), dtype=float)
             post_a = motl.df[["phi", "theta", "psi"]].to_numpy(dtype=float)
             rows_ok = motl.df.shape[0] == n and np.array_equal(motl.df["tomo_id"].to_numpy(dtype=float), pre_t)
-            ev = {"name": st["name"], "rows_ok": bool(rows_ok), "pos": [], "rot": [], "integral": True, "maxshift": 0}
+            ev = {"name": st["name"], "rows_ok": bool(rows_ok), "pos": [], "rot": [], "integral": True, "maxshift": 0,
+                  "pertomo": 0}
+            if rows_ok:
+                # the per-tomogram reading of the complete positions is the all-particles reading restricted to it
+                worst = 0.0
+                for t in sorted(set(pre_t.tolist())):
+                    got_t, err_t = core.call_guarded(lambda: np.asarray(motl.get_coordinates(int(t)), dtype=float))
+                    want_t = post_c[pre_t == t]
+                    if err_t is not None or got_t.shape != want_t.shape:
+                        worst = 2.0
+                    elif want_t.size:
+                        worst = max(worst, float(np.max(np.abs(got_t - want_t))))
+                ev["pertomo"] = scaled(worst, 1e7)
             if rows_ok:
                 for k in range(n):
                     R = pre_R[k]
@@ -390,7 +408,7 @@ def run_float(ctx, cases):
                         if st["kind"] != "none":
                             dd = case["dims"]
                             t = int(pre_t[k])
-                            dz = (dd.get(t) or dd.get(str(t)))[2] if st["kind"] == "table" else (dd.get(1) or dd.get("1"))[2]
+                            dz = (dd.get(t) or dd.get(str(t)))[2] if st["kind"] == "table" else single[2]
                             exp_c[2] = dz + 1 - pre_c[k][2]
                     scale = max(1.0, float(np.max(np.abs(exp_c))))
                     ev["pos"].append(scaled(np.max(np.abs(post_c[k] - exp_c)) / scale, 1e7))
